@@ -1367,6 +1367,13 @@ func (enc *VP8Encoder) EncodeFrame() ([]byte, error) {
 		if !doSearch {
 			break // quality mode: single pass
 		}
+		if pass == maxPasses-1 {
+			// Last pass: the frame stays as encoded. Adjusting now would write
+			// new quantizers into the header (and restore the source planes)
+			// without re-encoding, so the stream would not decode to what was
+			// reconstructed.
+			break
+		}
 		// Rate control: check if we hit the target.
 		if enc.adjustQuantForTarget() {
 			break
